@@ -596,7 +596,24 @@ pub fn cli_case(seed: u64, names: &[String], bin_path: &str) -> Option<(String, 
         ctx.exclude.push(n.to_string());
     }
     let b = 3 + r.below(40) as usize;
-    let prog = if r.chance(1, 3) {
+    let prog = if r.chance(1, 8) {
+        // a counted loop of well over a thousand steps that ends on its own: the front end has no
+        // step budget, so it runs to the same end as the library's step loop
+        let n = 260 + r.below(500) as i32;
+        let body = match r.below(4) {
+            0 => vec![ISpec::Int(1), ISpec::I("INTEGER.+".into())],
+            1 => vec![ISpec::I("INTEGER.POP".into()), ISpec::Int(2), ISpec::I("INTEGER.POP".into())],
+            2 => vec![ISpec::I("INTEGER.DUP".into()), ISpec::I("INTEGER.*".into()), ISpec::I("INTEGER.POP".into())],
+            _ => vec![ISpec::B(true), ISpec::I("BOOLEAN.NOT".into()), ISpec::I("BOOLEAN.POP".into())],
+        };
+        let lead = ctx.literal(&mut r);
+        let i = |n: &str| ISpec::I(n.to_string());
+        match r.below(3) {
+            0 => vec![ISpec::L(vec![lead, ISpec::Int(0), ISpec::Int(n), i("INDEX.DEFINE"), i("EXEC.LOOP"), ISpec::L(body)])],
+            1 => vec![ISpec::L(vec![lead, ISpec::Int(0), ISpec::Int(n), i("INDEX.DEFINE"), i("EXEC.LOOP"), ISpec::L(body), i("INDEX.CURRENT")])],
+            _ => vec![ISpec::L(vec![lead, ISpec::Int(0), ISpec::Int(n), i("INDEX.DEFINE"), i("CODE.QUOTE"), ISpec::L(body), i("CODE.LOOP")])],
+        }
+    } else if r.chance(1, 3) {
         // a top-level sequence without the outer parentheses: the argument may start
         // with a negative number, a float, a vector literal, a name or an instruction
         let mut v = vec![match r.below(6) {
@@ -646,7 +663,7 @@ pub fn cli_case(seed: u64, names: &[String], bin_path: &str) -> Option<(String, 
                 return true;
             }
             steps += 1;
-            if steps > 2000 {
+            if steps > 8000 {
                 return false;
             }
         }
